@@ -1561,3 +1561,69 @@ Proof.
   rewrite Epre, Esuf, ends_decomp. apply U2_Q_ends; auto.
   apply Forall_app. split; [exact Hpre'|]. apply Forall_app. split; [now apply Hpitems|exact Hsuf'].
 Qed.
+
+Lemma last_map_app_cons {X Y} (f : X -> Y) l x d : last (map f (l ++ [x])) d = f x.
+Proof. rewrite map_app. simpl. apply last_app_ne. discriminate. Qed.
+
+(* Q-node: one partial child among children without v *)
+Lemma q_single v T1 (d : bool) E1 x E3 :
+  2 <= length T1 -> Forall (GoodItem v) T1 -> T1 = E1 ++ [x] ++ E3 ->
+  Forall (fun y => ist y = SEmpty) E1 -> Forall (fun y => ist y = SEmpty) E3 -> (ist x = SPartA \/ ist x = SPartU) ->
+  (hd SFull (map ist T1) = SEmpty \/ last (map ist T1) SFull <> SEmpty) ->
+  exists t' st, q_body v (map ic T1) (map ist T1) = Ok (t', st) /\
+                Ord t' (flat_map ib (if d then T1 else rev T1)) /\ (st = SPartU -> U2 v t').
+Proof.
+  intros Hn HG ET HE1 HE3 Hx NF1.
+  pose proof (q_body_when v (map ic T1) (map ist T1)) as W. cbv zeta in W. rewrite map_length in W.
+  change (count_st SFull (map ist T1)) with (cnt SFull T1) in W. change (count_st SEmpty (map ist T1)) with (cnt SEmpty T1) in W.
+  change (count_st SPartA (map ist T1)) with (cnt SPartA T1) in W. change (count_st SPartU (map ist T1)) with (cnt SPartU T1) in W.
+  assert (HGs : Forall (GoodItem v) E1 /\ GoodItem v x /\ Forall (GoodItem v) E3).
+  { rewrite ET in HG. apply Forall_app in HG. destruct HG as [Ha Hb]. inversion Hb; subst. auto. }
+  destruct HGs as (G1 & Gx & G3).
+  assert (Hlen : length T1 = length E1 + S (length E3)) by (rewrite ET, app_length; reflexivity).
+  assert (Hc : forall s, cnt s T1 = (if status_eqb s SEmpty then length E1 else 0) + ((if status_eqb s (ist x) then 1 else 0) +
+                                    (if status_eqb s SEmpty then length E3 else 0))).
+  { intros s. rewrite ET, cnt_app. simpl app. rewrite cnt_cons, (cnt_E_list _ E1 HE1), (cnt_E_list _ E3 HE3). reflexivity. }
+  rewrite !Hc, Hlen in W. rewrite Hlen in Hn.
+  assert (Hunch : forall st, p_cases v [] [] = p_cases v [] [] -> (st <> SPartU \/ U2 v (Node KQ (map ic T1))) ->
+            q_body v (map ic T1) (map ist T1) = Ok (Node KQ (map ic T1), st) ->
+            exists t' st', q_body v (map ic T1) (map ist T1) = Ok (t', st') /\
+                           Ord t' (flat_map ib (if d then T1 else rev T1)) /\ (st' = SPartU -> U2 v t')).
+  { intros st _ Hst E. exists (Node KQ (map ic T1)), st. split; [exact E|]. split; [now apply (frontier_Q v)|].
+    intros ->. destruct Hst; [congruence|assumption]. }
+  destruct Hx as [Ex|Ex]; rewrite Ex in W; simpl in W.
+  - (* aligned partial *)
+    destruct W as (_ & _ & _ & Wd & _); [lia|now left|].
+    assert (Eq := Wd ltac:(lia) ltac:(lia) ltac:(lia) eq_refl ltac:(lia)).
+    destruct (status_eqb (last (map ist T1) SFull) SPartA) eqn:EL.
+    + apply (Hunch SPartA eq_refl); [left; discriminate|exact Eq].
+    + apply (Hunch SPartU eq_refl); [|exact Eq]. right.
+      (* the partial child is not the last one: children without v at both ends *)
+      destruct E3 as [|e3 E3'] using rev_ind.
+      { exfalso. rewrite ET in EL. rewrite app_nil_r, last_map_app_cons, Ex in EL. discriminate. }
+      clear IHE3'. assert (Hl : last (map ist T1) SFull = SEmpty).
+      { rewrite ET. rewrite !app_assoc, last_map_app_cons. apply Forall_app in HE3. destruct HE3 as [_ H]. now inversion H. }
+      destruct NF1 as [NF1|NF1]; [|congruence].
+      destruct E1 as [|e1 E1'].
+      { exfalso. rewrite ET in NF1. simpl in NF1. congruence. }
+      assert (G1' : Forall (GoodItem v) E1') by (inversion G1; auto).
+      inversion G1; subst. inversion HE1; subst. apply Forall_app in G3. destruct G3 as [G3a G3b]. inversion G3b; subst.
+      apply Forall_app in HE3. destruct HE3 as [HE3a HE3b]. inversion HE3b; subst.
+      destruct (item_E_pure v e1) as [Hp1 HP1]; auto. destruct (item_E_pure v e3) as [Hp3 HP3]; auto.
+      assert (Emap : map ic ((e1 :: E1') ++ [x] ++ E3' ++ [e3]) = ic e1 :: map ic (E1' ++ [x] ++ E3') ++ [ic e3]).
+      { repeat (rewrite ?map_app; simpl). rewrite <- ?app_assoc. reflexivity. }
+      rewrite Emap. apply U2_Q_ends; auto.
+      apply Forall_map. apply Forall_app. split; [|constructor].
+      * eapply Forall_impl; [|exact G1']. intros y Hy. apply Hy.
+      * apply Gx.
+      * eapply Forall_impl; [|exact G3a]. intros y Hy. apply Hy.
+  - (* unaligned partial *)
+    destruct W as (_ & _ & Wc & _); [lia|right; lia|].
+    assert (Eq := Wc ltac:(lia) ltac:(lia) eq_refl).
+    apply (Hunch SPartU eq_refl); [|exact Eq]. right.
+    apply U2_children; [destruct T1; [simpl in *; lia|discriminate]|].
+    apply Forall_map. rewrite ET. apply Forall_app. split; [|constructor].
+    + apply Forall_forall. intros y Hy. rewrite Forall_forall in G1, HE1. destruct (item_E_pure v y); auto.
+    + destruct Gx as (Hp & _ & _ & HU). auto.
+    + apply Forall_forall. intros y Hy. rewrite Forall_forall in G3, HE3. destruct (item_E_pure v y); auto.
+Qed.
